@@ -235,7 +235,7 @@ Definition alphabet : list letter :=
   [K "CREATE"; K "TABLE"; G; LDot; LStr; LPl; RPl; CMl; K "NOT"; K "NULL"; K "DEFAULT"; K "PRIMARY"; K "KEY"; K "UNIQUE";
    K "REFERENCES"; K "ON"; K "DELETE"; K "UPDATE"; K "CONSTRAINT"; K "FOREIGN";
    K "TABLESPACE"; K "STORED"; K "AS"; K "LOCATION"; K "ENGINE"; K "COMMENT"; K "USING"; K "IN"; LEq;
-   K "ROW"; K "FORMAT"; K "SERDE"; K "TERMINATED"; K "BY"; K "COLLECTION"; K "ITEMS"; K "MAP"; K "KEYS"; K "INTO"] ++ name_letters ++ colname_letters.
+   K "ROW"; K "FORMAT"; K "SERDE"; K "TERMINATED"; K "BY"; K "COLLECTION"; K "ITEMS"; K "MAP"; K "KEYS"; K "INTO"; K "TEXTIMAGE_ON"] ++ name_letters ++ colname_letters.
 
 (* ---------- the reference machine F ---------------------------------------------------------------------------------- *)
 Inductive ctx := First | Later.
@@ -278,12 +278,12 @@ Definition close_red (c : ctx) : string :=
 
 (* clauses after the column list: what is still to be reduced when the next clause (or the end) arrives *)
 Inductive cpend := CPTs | CPStored | CPLoc | CPEng | CPCom | CPUs | CPIn
-                 | CPRowSerde | CPRowWord | CPTerm | CPColl | CPMap | CPComStr | CPGen | CPInto.
+                 | CPRowSerde | CPRowWord | CPTerm | CPColl | CPMap | CPComStr | CPGen | CPInto | CPDist | CPOn | CPTextOn.
 Definition cpend_eqb (a b : cpend) : bool :=
   match a, b with
   | CPTs, CPTs | CPStored, CPStored | CPLoc, CPLoc | CPEng, CPEng | CPCom, CPCom | CPUs, CPUs | CPIn, CPIn
   | CPRowSerde, CPRowSerde | CPRowWord, CPRowWord | CPTerm, CPTerm | CPColl, CPColl | CPMap, CPMap | CPComStr, CPComStr
-  | CPGen, CPGen | CPInto, CPInto => true
+  | CPGen, CPGen | CPInto, CPInto | CPDist, CPDist | CPOn, CPOn | CPTextOn, CPTextOn => true
   | _, _ => false
   end.
 Lemma cpend_eqb_eq a b : cpend_eqb a b = true -> a = b.
@@ -305,6 +305,9 @@ Definition cpending (p : cpend) : list string :=
   | CPComStr => ["STRING -> STRING_BASE"; "expr -> expr COMMENT STRING"]
   | CPGen => ["id -> ID"; "expr -> expr id id"]
   | CPInto => ["expr -> expr INTO ID ID"]
+  | CPDist => ["expr -> expr id LP id RP"]
+  | CPOn => ["id -> ID"; "expr -> expr ON id"]
+  | CPTextOn => ["id -> ID"; "expr -> expr TEXTIMAGE_ON id"]
   end.
 
 (* which table-level column list is being read: PRIMARY KEY / UNIQUE / FOREIGN KEY / the referenced columns (named by CONSTRAINT?) *)
@@ -316,7 +319,7 @@ Inductive q :=
 | TFR0 (n : bool) | TFR1 (n : bool) | TFRD (n : bool) | TFR2 (n : bool)
 | TRON (n : bool) (upd_only : bool) | TROD (n : bool) | TROU (n : bool) | TRDel (n : bool) | TRUpd (n : bool)
 | XTS | XST | XSA | XLOC | XEN | XEE | XCM | XCE | XUS | XIN | CB (p : cpend)
-| XRW | XRF | XRS | XG1 | XGT | XGB | XCO | XCI | XCT | XCY | XMP | XMK | XMT | XMY | XI1 | XI2
+| XRW | XRF | XRS | XG1 | XGT | XGB | XCO | XCI | XCT | XCY | XMP | XMK | XMT | XMY | XI1 | XI2 | XD1 | XD2 | XON | XTO
 | T0 | T1 | T2 | N1 | ND | N2 | END
 | C0 (c : ctx) | C1 (c : ctx)
 | SZ0 (c : ctx) (two : bool) | SZ1 (c : ctx) | SZ2 (c : ctx) | SZ3 (c : ctx)
@@ -338,7 +341,7 @@ Definition q_eqb (a b : q) : bool :=
   match a, b with
   | XTS, XTS | XST, XST | XSA, XSA | XLOC, XLOC | XEN, XEN | XEE, XEE | XCM, XCM | XCE, XCE | XUS, XUS | XIN, XIN => true
   | XRW, XRW | XRF, XRF | XRS, XRS | XG1, XG1 | XGT, XGT | XGB, XGB | XCO, XCO | XCI, XCI | XCT, XCT | XCY, XCY
-  | XMP, XMP | XMK, XMK | XMT, XMT | XMY, XMY | XI1, XI1 | XI2, XI2 => true
+  | XMP, XMP | XMK, XMK | XMT, XMT | XMY, XMY | XI1, XI1 | XI2, XI2 | XD1, XD1 | XD2, XD2 | XON, XON | XTO, XTO => true
   | CB x, CB y => cpend_eqb x y
   | TCN0, TCN0 | TCN1, TCN1 => true
   | TPK0 x, TPK0 y | TPK1 x, TPK1 y | TUQ0 x, TUQ0 y | TFK0 x, TFK0 y | TFK1 x, TFK1 y | TFR0 x, TFR0 y | TFR1 x, TFR1 y
@@ -415,6 +418,8 @@ Definition clause_start (ps : list string) (l : letter) : option (fout * q) :=
   else if is l "COLLECTION" then Some ((ps, "COLLECTION", Upper), XCO)
   else if is l "MAP" then Some ((ps, "MAP", Upper), XMP)
   else if is l "INTO" then Some ((ps, "INTO", Upper), XI1)
+  else if is l "ON" then Some ((ps, "ON", Upper), XON)
+  else if is l "TEXTIMAGE_ON" then Some ((ps, "TEXTIMAGE_ON", Upper), XTO)
   else if isG l then Some ((ps, "ID", Keep), XG1)
   else None.
 
@@ -445,7 +450,12 @@ Definition fstep (s : q) (l : letter) : option (fout * q) :=
            else if isG l then Some ((["row_format -> ROW FORMAT"], "ID", Keep), CB CPRowWord) else None
   | XRS => if isl l LStr then Some ((["row_format -> ROW FORMAT SERDE"], "STRING_BASE", Keep), CB CPRowSerde) else None
   | XG1 => if is l "TERMINATED" then Some ((["id -> ID"], "TERMINATED", Upper), XGT)
-           else if isG l then Some ((["id -> ID"], "ID", Keep), CB CPGen) else None
+           else if isG l then Some ((["id -> ID"], "ID", Keep), CB CPGen)
+           else if isl l LPl then Some ((["id -> ID"], "LP", Keep), XD1) else None
+  | XD1 => if isG l then Some (([], "ID", Keep), XD2) else None
+  | XD2 => if isl l RPl then Some ((["id -> ID"], "RP", Upper), CB CPDist) else None
+  | XON => if isG l then Some (([], "ID", Keep), CB CPOn) else None
+  | XTO => if isG l then Some (([], "ID", Keep), CB CPTextOn) else None
   | XGT => if is l "BY" then Some (([], "BY", Upper), XGB) else None
   | XGB => if isl l LStr then Some (([], "STRING_BASE", Keep), CB CPTerm) else None
   | XCO => if is l "ITEMS" then Some (([], "ITEMS", Upper), XCI) else None
@@ -758,7 +768,7 @@ Definition tablec_of_args (l : list string) : option tablec :=
    Clauses after the column list (property C11), any number, subset and order:
      TABLESPACE n | STORED AS f | LOCATION 'path' | ENGINE = e | COMMENT = 'text' | USING f | IN n | ROW FORMAT SERDE 'class' |
      ROW FORMAT word | word TERMINATED BY 'c' | COLLECTION ITEMS TERMINATED BY 'c' | MAP KEYS TERMINATED BY 'c' | COMMENT 'text' |
-     word word (DISTSTYLE EVEN ...) | INTO n BUCKETS *)
+     word word (DISTSTYLE EVEN ...) | INTO n BUCKETS | word (name) (DISTKEY (a)) | ON filegroup | TEXTIMAGE_ON filegroup *)
 Inductive tclause :=
 | CTablespace (kw n : string) | CStored (kw1 kw2 v : string) | CLocation (kw s : string) | CEngine (kw v : string)
 | CComment (kw s : string) | CUsing (kw v : string) | CIn (kw v : string)
@@ -769,7 +779,10 @@ Inductive tclause :=
 | CMapKeys (k1 k2 k3 k4 s : string)        (* MAP KEYS TERMINATED BY 'c' *)
 | CCommentStr (kw s : string)              (* COMMENT 'text' *)
 | CGen (w1 w2 : string)                    (* two plain words: DISTSTYLE EVEN ... *)
-| CInto (kw n w : string).                 (* INTO 4 BUCKETS *)
+| CInto (kw n w : string)                  (* INTO 4 BUCKETS *)
+| CDist (w v : string)                     (* DISTKEY (col): any plain word followed by one parenthesised name *)
+| COn (kw v : string)                      (* ON filegroup *)
+| CTextOn (kw v : string).                 (* TEXTIMAGE_ON filegroup *)
 Record tablex := mkTableX { tx_tc : tablec; tx_clauses : list tclause }.
 
 Definition EQL : lexeme := ("t_EQ", "=").
@@ -790,9 +803,12 @@ Definition wf_clause (c : tclause) : bool :=
   | CCommentStr k _ => is_kw k "COMMENT"
   | CGen w1 w2 => is_plain w1 && is_plain w2
   | CInto k n w => is_kw k "INTO" && is_plain n && is_plain w
+  | CDist w v => is_plain w && is_plain v
+  | COn k v => is_kw k "ON" && is_plain v
+  | CTextOn k v => is_kw k "TEXTIMAGE_ON" && is_plain v
   end.
 (* TABLESPACE x directly followed by IN ... or by a plain word is read by the grammar as one tablespace clause with properties *)
-Definition starts_plain (c : tclause) : bool := match c with CIn _ _ | CTerm _ _ _ _ | CGen _ _ => true | _ => false end.
+Definition starts_plain (c : tclause) : bool := match c with CIn _ _ | CTerm _ _ _ _ | CGen _ _ | CDist _ _ => true | _ => false end.
 Fixpoint no_ts_then_in (l : list tclause) : bool :=
   match l with
   | CTablespace _ _ :: ((c :: _) as r) => negb (starts_plain c) && no_ts_then_in r
@@ -815,6 +831,8 @@ Definition clause_lexemes (c : tclause) : list lexeme :=
   | CCommentStr k s => [W k; SB s]
   | CGen w1 w2 => [W w1; W w2]
   | CInto k n w => [W k; W n; W w]
+  | CDist w v => [W w; LPx; W v; RPx]
+  | COn k v | CTextOn k v => [W k; W v]
   end.
 Definition clause_letters (c : tclause) : list letter :=
   match c with
@@ -833,6 +851,9 @@ Definition clause_letters (c : tclause) : list letter :=
   | CCommentStr _ _ => [K "COMMENT"; LStr]
   | CGen _ _ => [G; G]
   | CInto _ _ _ => [K "INTO"; G; G]
+  | CDist _ _ => [G; LPl; G; RPl]
+  | COn _ _ => [K "ON"; G]
+  | CTextOn _ _ => [K "TEXTIMAGE_ON"; G]
   end.
 (* each clause sets exactly one key of the table entity, to exactly the declared value, and touches nothing else *)
 Definition clause_key (norm : bool) (c : tclause) : string :=
@@ -844,6 +865,8 @@ Definition clause_key (norm : bool) (c : tclause) : string :=
   | CColl _ _ _ _ _ => "collection_items_terminated_by" | CMapKeys _ _ _ _ _ => "map_keys_terminated_by"
   | CGen w1 _ => nms norm w1                                          (* the first word as written is the key *)
   | CInto _ _ w => "into_" ++ lower w
+  | CDist _ _ => "distkey"                                            (* whatever the word before the parenthesis is *)
+  | COn _ _ => "on" | CTextOn _ _ => "textimage_on"
   end.
 Definition clause_value (norm : bool) (c : tclause) : pyval :=
   match c with
@@ -855,6 +878,7 @@ Definition clause_value (norm : bool) (c : tclause) : pyval :=
   | CTerm _ _ _ s | CColl _ _ _ _ s | CMapKeys _ _ _ _ s | CCommentStr _ s => PStr (check_spec s)   (* 'pars_m_t' etc. stand for tab, newline ... *)
   | CGen _ w2 => nmv norm w2
   | CInto _ n _ => PStr n
+  | CDist _ v | COn _ v | CTextOn _ v => nmv norm v
   end.
 Definition clause_apply (norm : bool) (d : list (string * pyval)) (c : tclause) : list (string * pyval) :=
   dict_set d (clause_key norm c) (clause_value norm c).
@@ -870,7 +894,7 @@ Definition wf_x (norm : bool) (tx : tablex) : bool :=
 
 (* ---------- protocol for the clauses after the column list: after the table (and ITEMS) arguments the word CLAUSES, then per clause
      (tag and five words, unused ones empty)  TS k n | ST k1 k2 v | LO k s | EN k v | CO k s | US k v | IN k v | RS k1 k2 k3 s | RW k1 k2 w |
-     TE w k1 k2 s | CI k1 k2 k3 k4 s | MK k1 k2 k3 k4 s | CS k s | GE w1 w2 | IT k n w *)
+     TE w k1 k2 s | CI k1 k2 k3 k4 s | MK k1 k2 k3 k4 s | CS k s | GE w1 w2 | IT k n w | DK w v | ON k v | TO k v *)
 Fixpoint clauses_of_args (fuel : nat) (l : list string) : option (list tclause) :=
   match fuel with
   | O => None
@@ -896,6 +920,9 @@ Fixpoint clauses_of_args (fuel : nat) (l : list string) : option (list tclause) 
         else if String.eqb tag "CS" then Some (CCommentStr a b :: cs)
         else if String.eqb tag "GE" then Some (CGen a b :: cs)
         else if String.eqb tag "IT" then Some (CInto a b c :: cs)
+        else if String.eqb tag "DK" then Some (CDist a b :: cs)
+        else if String.eqb tag "ON" then Some (COn a b :: cs)
+        else if String.eqb tag "TO" then Some (CTextOn a b :: cs)
         else None
       end
     | _ => None
